@@ -648,7 +648,8 @@ def from_preset(chk):
     cases = [("sg_2", 8, "sizes"), ("g3", 26, "sizes"), ("sg_1", 26, "sizes"), ("sg_1", 8, "degrees"), ("fine", 8, "degrees")]
 
     def init_contract(eng_, f, args, kwargs):
-        calls["init"].append((list(args), dict(kwargs)))
+        # bound against the real signature of AtomGrid.__init__: positional and keyword forms of the call are the same call
+        calls["init"].append(([], framework.bound_arguments(eng_, f, args, kwargs)))
         o = I.Obj(f)
         o.fields["_marker"] = len(calls["init"])
         return o
@@ -710,7 +711,7 @@ def from_preset(chk):
             # which file is opened, and how often, is a proof step (the table behind np.load is the contract's stand-in for the shipped data)
             chk.add(f"{tag}/callee-pre/reads-the-table-of-this-preset", [], z3.BoolVal(bool(okl)), kind="callee-pre", func=fq, meta={"replay": rep})
             ci = c["init"]
-            oki = len(ci) == 1 and ci[0][0] and ci[0][0][0] is rg and ci[0][1].get("method") == "maxdet" and T.is_sym(ci[0][1].get("rotate")) and ci[0][1]["rotate"].eq(rot) \
+            oki = len(ci) == 1 and ci[0][1].get("rgrid") is rg and ci[0][1].get("method") == "maxdet" and T.is_sym(ci[0][1].get("rotate")) and ci[0][1]["rotate"].eq(rot) \
                 and isinstance(ci[0][1].get("center"), I.Arr)
             chk.add(f"{tag}/post/constructor-gets-grid-centre-seed-method", list(o.pc),
                     z3.And(z3.BoolVal(bool(oki)), *([T.zr(ci[0][1]["center"].fn(x)) == ctr[x] for x in range(3)] if oki else [])), func=fq, meta={"replay": rep})
@@ -720,7 +721,7 @@ def from_preset(chk):
             kw = ci[0][1]
             if kind == "sizes":
                 sz = kw.get("sizes")
-                degs_none = (ci[0][0][1] if len(ci[0][0]) > 1 else kw.get("degrees", 0)) is None
+                degs_none = kw.get("degrees", 0) is None
                 good = type(sz).__name__ in ("SymList", "LazySeq") and degs_none
                 chk.add(f"{tag}/post/sizes-are-the-tabulated-size-of-each-sector-repeated-for-its-shells", hy,
                         z3.And(T.zi(sz.length) == OFFP(K), T.zi(sz.item(OFFP(s0) + t0)) == NPTS(s0)) if good else z3.BoolVal(False), func=fq, meta={"replay": rep})
